@@ -254,16 +254,35 @@ def _jsonschema_sites(repo: pathlib.Path) -> List[Tuple[str, bool, str, bool, st
 
 
 def _xsd_skeleton(repo: pathlib.Path) -> Dict[str, Any]:
+    """The bucket sort of ``_sort_by_tags_and_names_in_place``.  The buckets are lists initialised empty — each under its own
+    name, or as the values of one dict literal keyed by the tags — and are numbered in the order in which they are
+    concatenated into the new children (a numbering that does not depend on how the buckets are declared)."""
     mod = _parse(repo, "aas_core_codegen/xsd/main.py")
     fn = _func(mod, "_sort_by_tags_and_names_in_place")
     if len(fn.args.args) != 1:
         raise ExtractError("_sort_by_tags_and_names_in_place: expected one parameter")
     root = fn.args.args[0].arg
-    # the lists, in order of their initialisation `x = []`
-    lists: List[str] = []
+    written_back = [
+        ast.unparse(s.value) for s in fn.body if isinstance(s, ast.Assign) and ast.unparse(s.targets[0]) == f"{root}[:]"
+    ]
+    # the buckets, in order of their initialisation: `x = []`, or the entries of `d = {"<tag>": [], …}`
+    lists: List[str] = []  # a named list is its name, an entry of the dict is `<dict>[<tag>]`
+    by_tag: Dict[str, List[Tuple[str, str]]] = {}  # dict name -> [(tag, bucket)]
     for st in fn.body:
-        if isinstance(st, ast.Assign) and isinstance(st.value, ast.List) and not st.value.elts and isinstance(st.targets[0], ast.Name):
-            lists.append(st.targets[0].id)
+        if not (isinstance(st, ast.Assign) and len(st.targets) == 1 and isinstance(st.targets[0], ast.Name)):
+            continue
+        name = st.targets[0].id
+        if isinstance(st.value, ast.List) and not st.value.elts and name not in written_back:
+            lists.append(name)
+        elif isinstance(st.value, ast.Dict) and st.value.keys and all(
+            isinstance(k, ast.Constant) and isinstance(k.value, str) and isinstance(v, ast.List) and not v.elts
+            for k, v in zip(st.value.keys, st.value.values)
+        ):
+            tags = [k.value for k in st.value.keys]  # type: ignore[union-attr]
+            if len(set(tags)) != len(tags):
+                raise ExtractError("the dict of the bucket lists names a tag twice")
+            by_tag[name] = [(t, f"{name}[{t!r}]") for t in tags]
+            lists += [b for _, b in by_tag[name]]
     if not lists:
         raise ExtractError("no bucket lists found")
     loops = [st for st in fn.body if isinstance(st, ast.For)]
@@ -279,14 +298,38 @@ def _xsd_skeleton(repo: pathlib.Path) -> Dict[str, Any]:
     def appended(body: List[ast.stmt]) -> int:
         if len(body) == 1 and isinstance(body[0], ast.Expr) and isinstance(body[0].value, ast.Call):
             c = body[0].value
-            if isinstance(c.func, ast.Attribute) and c.func.attr == "append" and ast.unparse(c.args[0]) == child:
+            if isinstance(c.func, ast.Attribute) and c.func.attr == "append" and len(c.args) == 1 and ast.unparse(c.args[0]) == child:
                 name = ast.unparse(c.func.value)
                 if name in lists:
                     return lists.index(name)
         raise ExtractError("classification branch does not append the child to one of the lists")
 
     st: Any = cls_loop.body[0]
-    while True:
+    lookup = st.value.func.value if (
+        isinstance(st, ast.Expr)
+        and isinstance(st.value, ast.Call)
+        and isinstance(st.value.func, ast.Attribute)
+        and st.value.func.attr == "append"
+        and len(st.value.args) == 1
+        and not st.value.keywords
+        and ast.unparse(st.value.args[0]) == child
+    ) else None
+    if (
+        isinstance(lookup, ast.Call)
+        and isinstance(lookup.func, ast.Attribute)
+        and lookup.func.attr == "get"
+        and isinstance(lookup.func.value, ast.Name)
+        and lookup.func.value.id in by_tag
+        and len(lookup.args) == 2
+        and not lookup.keywords
+        and ast.unparse(lookup.args[0]) == f"{child}.tag"
+        and ast.unparse(lookup.args[1]) in lists
+    ):
+        # `<dict>.get(child.tag, <else list>).append(child)`: the entry of the tag, or the else list
+        chain = [(t, lists.index(b)) for t, b in by_tag[lookup.func.value.id]]
+        else_bucket = lists.index(ast.unparse(lookup.args[1]))
+        st = None
+    while st is not None:
         if not isinstance(st, ast.If):
             raise ExtractError("classification loop is not an if/elif chain")
         t = st.test
@@ -305,22 +348,73 @@ def _xsd_skeleton(repo: pathlib.Path) -> Dict[str, Any]:
             continue
         else_bucket = appended(st.orelse)
         break
-    # sorting loop
-    if not (isinstance(sort_loop.iter, (ast.List, ast.Tuple)) and isinstance(sort_loop.target, ast.Name) and len(sort_loop.body) == 1):
+    if len({t for t, _ in chain}) != len(chain):
+        raise ExtractError("a tag is tested twice in the classification")
+
+    # sorting loop: over a sequence of the bucket lists
+    def seq_of_lists(e: ast.AST) -> List[int]:
+        if isinstance(e, (ast.List, ast.Tuple)):
+            out = []
+            for x in e.elts:
+                if ast.unparse(x) not in lists:
+                    raise ExtractError("sorting loop iterates over something that is not a bucket list")
+                out.append(lists.index(ast.unparse(x)))
+            return out
+        if isinstance(e, ast.BinOp) and isinstance(e.op, ast.Add):
+            return seq_of_lists(e.left) + seq_of_lists(e.right)
+        if isinstance(e, ast.Call) and isinstance(e.func, ast.Name) and e.func.id == "list" and len(e.args) == 1 and not e.keywords:
+            return seq_of_lists(e.args[0])
+        if (
+            isinstance(e, ast.Call)
+            and isinstance(e.func, ast.Attribute)
+            and e.func.attr == "values"
+            and isinstance(e.func.value, ast.Name)
+            and e.func.value.id in by_tag
+            and not e.args
+            and not e.keywords
+        ):
+            return [lists.index(b) for _, b in by_tag[e.func.value.id]]
+        raise ExtractError("sorting loop iterates over something that is not a sequence of the bucket lists")
+
+    if not (isinstance(sort_loop.target, ast.Name) and len(sort_loop.body) == 1):
         raise ExtractError("sorting loop has an unexpected shape")
-    sorted_lists = []
-    for e in sort_loop.iter.elts:
-        if ast.unparse(e) not in lists:
-            raise ExtractError("sorting loop iterates over something that is not a bucket list")
-        sorted_lists.append(lists.index(ast.unparse(e)))
+    sorted_lists = seq_of_lists(sort_loop.iter)
     call = sort_loop.body[0].value if isinstance(sort_loop.body[0], ast.Expr) else None
-    if not (
+    concat: List[int] = []
+    concat_in_loop = False
+    if (
         isinstance(call, ast.Call)
         and isinstance(call.func, ast.Attribute)
         and call.func.attr == "sort"
         and ast.unparse(call.func.value) == sort_loop.target.id
         and not call.args
     ):
+        pass  # `<list>.sort(...)` in place; the lists are concatenated afterwards
+    elif (
+        isinstance(call, ast.Call)
+        and isinstance(call.func, ast.Attribute)
+        and call.func.attr == "extend"
+        and ast.unparse(call.func.value) in written_back
+        and len(call.args) == 1
+        and not call.keywords
+        and isinstance(call.args[0], ast.Call)
+        and isinstance(call.args[0].func, ast.Name)
+        and call.args[0].func.id == "sorted"
+        and len(call.args[0].args) == 1
+        and ast.unparse(call.args[0].args[0]) == sort_loop.target.id
+    ):
+        # `children.extend(sorted(<list>, ...))` onto the initially empty children: sorted and concatenated in one go
+        target = ast.unparse(call.func.value)
+        inits = [
+            s for s in fn.body
+            if isinstance(s, ast.Assign) and len(s.targets) == 1 and ast.unparse(s.targets[0]) == target
+        ]
+        if not (len(inits) == 1 and isinstance(inits[0].value, ast.List) and not inits[0].value.elts and fn.body.index(inits[0]) < fn.body.index(sort_loop)):
+            raise ExtractError(f"{target} is not initialised once, as an empty list, before the sorting loop")
+        call = call.args[0]
+        concat = list(sorted_lists)
+        concat_in_loop = True
+    else:
         raise ExtractError("sorting loop body is not `<list>.sort(...)`")
     key, reverse = "", False
     for kw in call.keywords:
@@ -337,9 +431,9 @@ def _xsd_skeleton(repo: pathlib.Path) -> Dict[str, Any]:
             key = ast.unparse(Ren().visit(lam.body))
         elif kw.arg == "reverse":
             reverse = not (isinstance(kw.value, ast.Constant) and kw.value.value in (False, None, 0))
+        else:
+            raise ExtractError(f"unknown argument {kw.arg} of the sort")
     # concatenation
-    a = _assign_to(fn, ["children"])
-    concat: List[int] = []
 
     def flat(n: ast.AST) -> None:
         if isinstance(n, ast.BinOp) and isinstance(n.op, ast.Add):
@@ -350,7 +444,16 @@ def _xsd_skeleton(repo: pathlib.Path) -> Dict[str, Any]:
         else:
             raise ExtractError("children is not a concatenation of the bucket lists")
 
-    flat(a.value)
+    if not concat_in_loop:
+        flat(_assign_to(fn, ["children"]).value)
+    if len(set(concat)) != len(concat):
+        raise ExtractError("a bucket list is concatenated twice")
+    # number the buckets in the order of the concatenation (the ones left out come last, in order of initialisation)
+    order = concat + [i for i in range(len(lists)) if i not in concat]
+    chain = [(t, order.index(i)) for t, i in chain]
+    else_bucket = order.index(else_bucket)
+    sorted_lists = sorted(order.index(i) for i in sorted_lists)
+    concat = [order.index(i) for i in concat]
     asserts_len = any(
         isinstance(s, ast.Assert) and ast.unparse(s.test) in (f"len(children) == len({root})", f"len({root}) == len(children)")
         for s in fn.body
@@ -500,7 +603,7 @@ def gen_SortSites(repo: pathlib.Path) -> str:
         )
         + "]",
         "",
-        "/-- `_sort_by_tags_and_names_in_place`: lists are numbered in the order of their initialisation. -/",
+        "/-- `_sort_by_tags_and_names_in_place`: the bucket lists are numbered in the order of their concatenation. -/",
         f"def xsdLists : Nat := {x['n_lists']}",
         "def xsdTagChain : List (Text × Nat) := [" + ", ".join(f"({lean_text(t)}, {i})" for t, i in x["chain"]) + "]",
         f"def xsdElseList : Nat := {x['else']}",
